@@ -23,9 +23,10 @@ Definition fix_file (e : env) (U : file -> res kust) (R : kust -> string -> list
    substitution): that part is not modelled.  What it does to the kustomization enters as an oracle:
      VFail        the conversion failed (an occurrence that is not delimited, ...): nothing is written;
      VOk tok      it succeeded; tok = JSON of the replacements it produced (None: empty list).
-   Modelled: it only runs when the file has vars, appends bases to resources, REPLACES whatever
-   `replacements:` the file had (finding fix-vars-drops-existing-replacements), removes `vars:`; and where
-   the fields then go in the rewritten file. *)
+   Modelled: it only runs when the file has vars, appends bases to resources, sets `replacements:` to the
+   oracle token (since the repair U2-fix-vars-keep-replacements: the entries the file had followed by the
+   converted vars; the harness checks that prefix on the implementation), removes `vars:`; and where the
+   fields then go in the rewritten file. *)
 Inductive vars_oracle := VFail | VOk (tok : option string).
 
 Fixpoint rank_of (n : string) (l : list string) : nat :=
